@@ -16,18 +16,35 @@ func sp_sat15(x uint64) uint64 {
 	return x
 }
 
-func sp_rehash(h uint64) uint64 { return (h * 0x94d049bb133111eb) ^ ((h * 0x94d049bb133111eb) >> 31) }
+func op_rehash(h uint64) uint64 { return (h * 0x94d049bb133111eb) ^ ((h * 0x94d049bb133111eb) >> 31) }
 
 // word index and counter index of the o-th counter (o < 4) of hash h
 func sp_cidx(s *CountMinSketch, h uint64, o uint64) uint64 {
-	return ((h & uint64(s.BlockMask)) << 3) + ((sp_rehash(h) >> (o << 3)) & 1) + (o << 1)
+	return ((h & uint64(s.BlockMask)) << 3) + ((op_rehash(h) >> (o << 3)) & 1) + (o << 1)
 }
-func sp_coff(h uint64, o uint64) uint { return uint(((sp_rehash(h) >> (o << 3)) >> 1) & 0xf) }
+func sp_coff(h uint64, o uint64) uint { return uint(((op_rehash(h) >> (o << 3)) >> 1) & 0xf) }
 
 // well-formed sketch: power-of-two table of 16..2^40 words, derived fields consistent
 func sp_wfSketch(s *CountMinSketch) bool {
 	return sp_pow2(uint(len(s.Table))) && len(s.Table) >= 16 && len(s.Table) <= 1<<40 &&
 		s.BlockMask == uint((len(s.Table)>>3)-1) && s.SampleSize == 10*uint(len(s.Table))
+}
+
+// ghost: how often hash h has been recorded in s since the last aging reset / growth
+func gh_rec(s *CountMinSketch, h uint64) uint64 { panic("ghost") }
+
+// J: no key is under-counted: each of its four counters is at least min(15, recordings)
+func sp_J(s *CountMinSketch) bool {
+	return all(func(g uint64) bool {
+		return upto(4, func(o uint64) bool {
+			return sp_nib(s.Table[sp_cidx(s, g, o)], sp_coff(g, o)) >= sp_sat15(gh_rec(s, g))
+		})
+	})
+}
+
+// every 4-bit counter of word a is at least the corresponding counter of word b
+func sp_wordGe(a, b uint64) bool {
+	return upto(16, func(k uint) bool { return sp_nib(a, k) >= sp_nib(b, k) })
 }
 
 func spec_next2Power(x uint) (r uint) {
@@ -39,7 +56,8 @@ func spec_next2Power(x uint) (r uint) {
 }
 
 func spec_rehash(h uint64) (r uint64) {
-	ensures("def", r == sp_rehash(h))
+	reveal("op_rehash")
+	ensures("def", r == op_rehash(h))
 	return
 }
 
@@ -59,8 +77,8 @@ func (s *CountMinSketch) spec_inc(index uint, offset uint) (added bool) {
 	requires("index", index < uint(len(s.Table)))
 	requires("offset", offset < 16)
 	ensures("target", sp_nib(s.Table[index], offset) == sp_sat15(old(sp_nib(s.Table[index], offset))+1))
-	ensures("others_in_word", all(func(k uint) bool {
-		return imp(k < 16 && k != offset, sp_nib(s.Table[index], k) == old(sp_nib(s.Table[index], k)))
+	ensures("others_in_word", upto(16, func(k uint) bool {
+		return imp(k != offset, sp_nib(s.Table[index], k) == old(sp_nib(s.Table[index], k)))
 	}))
 	ensures("other_words", all(func(i uint) bool {
 		return imp(i != index, s.Table[i] == old(s.Table[i]))
@@ -105,45 +123,50 @@ func (s *CountMinSketch) spec_reset_loop1(i int, count int) {
 func (s *CountMinSketch) spec_Add(h uint64) (reset bool) {
 	requires("wf", sp_wfSketch(s))
 	requires("additions", s.Additions < s.SampleSize)
+	requires("J", sp_J(s))
+	if reset {
+		setall(gh_rec(s, 0), uint64(0))
+	} else {
+		set(gh_rec(s, h), gh_rec(s, h)+1)
+	}
 	ensures("wf", sp_wfSketch(s) && len(s.Table) == old(len(s.Table)))
 	// the equality test Additions == SampleSize can never be stepped over
 	ensures("additions", s.Additions < s.SampleSize)
 	// without a reset: the key's own four counters are each incremented (saturating at 15) ...
-	ensures("own", imp(!reset, all(func(o uint64) bool {
-		return imp(o < 4, sp_nib(s.Table[sp_cidx(s, h, o)], sp_coff(h, o)) == sp_sat15(old(sp_nib(s.Table[sp_cidx(s, h, o)], sp_coff(h, o)))+1))
+	ensures("own", imp(!reset, upto(4, func(o uint64) bool {
+		return sp_nib(s.Table[sp_cidx(s, h, o)], sp_coff(h, o)) == sp_sat15(old(sp_nib(s.Table[sp_cidx(s, h, o)], sp_coff(h, o)))+1)
 	})))
 	// ... and no counter anywhere decreases
-	ensures("monotone", imp(!reset, all(func(i uint) bool {
-		return all(func(k uint) bool {
-			return imp(i < uint(len(s.Table)) && k < 16, sp_nib(s.Table[i], k) >= old(sp_nib(s.Table[i], k)))
-		})
-	})))
+	ensures("monotone", imp(!reset, all(func(i uint) bool { return sp_wordGe(s.Table[i], old(s.Table[i])) })))
+	ensures("rec", imp(!reset, gh_rec(s, h) == old(gh_rec(s, h))+1 && all(func(g uint64) bool { return imp(g != h, gh_rec(s, g) == old(gh_rec(s, g))) })))
+	ensures("rec_reset", imp(reset, all(func(g uint64) bool { return gh_rec(s, g) == 0 })))
+	ensures("J", sp_J(s))
+	only("J", "req.J", "post.own", "post.monotone", "post.rec", "post.rec_reset")
 	return
 }
 
 func (s *CountMinSketch) spec_Addn(h uint64, n int) {
 	requires("wf", sp_wfSketch(s))
+	requires("J", sp_J(s))
 	ensures("wf", sp_wfSketch(s) && len(s.Table) == old(len(s.Table)))
-	ensures("monotone", all(func(i uint) bool {
-		return all(func(k uint) bool {
-			return imp(i < uint(len(s.Table)) && k < 16, sp_nib(s.Table[i], k) >= old(sp_nib(s.Table[i], k)))
-		})
-	}))
+	ensures("monotone", all(func(i uint) bool { return sp_wordGe(s.Table[i], old(s.Table[i])) }))
+	ensures("J", sp_J(s))
+	only("J", "req.J", "post.monotone", "post.wf")
 }
 
 func (s *CountMinSketch) spec_Addn_loop1(i int, n int, index0, offset0, index1, offset1, index2, offset2, index3, offset3 uint) {
 	invariant("shape", len(s.Table) == old(len(s.Table)) && s.SampleSize == old(s.SampleSize) && s.BlockMask == old(s.BlockMask))
 	invariant("i", i >= 0)
-	invariant("monotone", all(func(j uint) bool {
-		return all(func(k uint) bool {
-			return imp(j < uint(len(s.Table)) && k < 16, sp_nib(s.Table[j], k) >= old(sp_nib(s.Table[j], k)))
-		})
-	}))
+	invariant("monotone", all(func(j uint) bool { return sp_wordGe(s.Table[j], old(s.Table[j])) }))
 	decreases(n - i)
 }
 
 func (s *CountMinSketch) spec_Estimate(h uint64) (m uint) {
 	requires("wf", sp_wfSketch(s))
+	requires("J", sp_J(s))
+	hide("lower", "req.J")
+	hide("attained", "req.J")
+	hide("cap", "req.J")
 	// the estimate is the minimum of the key's four counters
 	ensures("lower", all(func(o uint64) bool {
 		return imp(o < 4, uint64(m) <= sp_nib(s.Table[sp_cidx(s, h, o)], sp_coff(h, o)))
@@ -152,20 +175,28 @@ func (s *CountMinSketch) spec_Estimate(h uint64) (m uint) {
 		return o < 4 && uint64(m) == sp_nib(s.Table[sp_cidx(s, h, o)], sp_coff(h, o))
 	}))
 	ensures("cap", m <= 15)
+	// never under-counts: at least the number of recordings since the last reset, capped at 15
+	ensures("no_undercount", uint64(m) >= sp_sat15(gh_rec(s, h)))
 	return
 }
 
 func (s *CountMinSketch) spec_EnsureCapacity(size uint) {
 	requires("size", size <= 1<<40)
-	requires("wf_or_empty", len(s.Table) == 0 || sp_wfSketch(s))
+	requires("wf_or_empty", len(s.Table) == 0 || (sp_wfSketch(s) && sp_J(s)))
+	if old(len(s.Table)) < int(size) {
+		// a grown table starts a new counting period
+		setall(gh_rec(s, 0), uint64(0))
+	}
 	ensures("never_shrinks", len(s.Table) >= old(len(s.Table)))
 	ensures("fits", uint(len(s.Table)) >= size)
 	ensures("wf", imp(size > 0 || old(len(s.Table)) > 0, sp_wfSketch(s)))
 	ensures("unchanged_if_fits", imp(old(len(s.Table)) >= int(size), len(s.Table) == old(len(s.Table)) && s.Additions == old(s.Additions)))
 	ensures("additions", imp(old(len(s.Table)) < int(size), s.Additions == 0))
+	ensures("J", imp(size > 0 || old(len(s.Table)) > 0, sp_J(s)))
 }
 
 func spec_NewCountMinSketch() (r *CountMinSketch) {
 	ensures("wf", r != nil && sp_wfSketch(r) && r.Additions == 0 && len(r.Table) >= 64)
+	ensures("J", sp_J(r))
 	return
 }
